@@ -248,6 +248,9 @@ var (
 // the prefix rule; the index bucket of a Use route is irrelevant for a one-route app only in the sense that C03/C01-d
 // style index defects would show as a disagreement between both views and are then examined.)
 func useMatches(c Case, prefix, path string) bool {
+	if prefix == "" || prefix == "/" {
+		return true // documented: a middleware without prefix (or on "/") matches any request - no second opinion needed
+	}
 	key := fmt.Sprintf("%v|%v|%v|%s|%s", c.CS, c.Strict, c.Unesc, prefix, path)
 	useMemoMu.Lock()
 	v, ok := useMemo[key]
@@ -435,7 +438,7 @@ func classify(c Case, fail string) string {
 }
 
 func check(c Case) vk.Verdict {
-	if strings.HasPrefix(c.Path, "//") || strings.ContainsAny(c.Path, "?#") {
+	if strings.ContainsAny(c.Path, "?#") {
 		return vk.Verdict{Skip: true}
 	}
 	got := run(c)
@@ -647,6 +650,9 @@ func mutatePath(t *rapid.T, p string) string {
 		if len(p) > n {
 			return p[:n]
 		}
+	case 4:
+		// nothing but slashes, a doubled leading or trailing slash
+		return rapid.SampledFrom([]string{"//", "///", "/" + p, p + "/", p + "//"}).Draw(t, "slashes")
 	}
 	return p
 }
